@@ -231,7 +231,7 @@ func c08WireCases(t *testing.T, rep *hx.Report, orc *hx.Oracle, rng *hx.RNG, per
 	for _, v := range allVariants {
 		for i := 0; i < perVariant; i++ {
 			mode := modes[i%len(modes)]
-			c := c05GenWire(rng, v, false)
+			c := c05GenWire(rng, v, "")
 			c.Stream = "wire-" + mode
 			if mode == "silence" || mode == "flood" || mode == "bursts" {
 				c.Replies = map[int][]c05Reply{}
